@@ -17,3 +17,15 @@ package mathlib
 //@   exits ContextTerminationError
 //@   effects unmetered-loop 1
 //@   loop 1: invariant true
+
+// C02: math.fmod(x, y) is "the remainder of the division of x by y that rounds
+// the quotient towards zero" (manual §6.7) - the C remainder, whose sign follows
+// the dividend - not the floored modulo of the `%` operator.  Decided for
+// integer arguments (floats go through math.Mod, which is uninterpreted).
+//@ func fmod
+//@   prop C02 C04
+//@   arith bv
+//@   requires t != nil && t.Runtime != nil && c != nil && c.GoFunction != nil && c.next != nil && 0 <= c.nArgs && c.nArgs <= len(c.args) && len(c.args) == 2
+//@   modifies everything()
+//@   exits ContextTerminationError
+//@   assert_before_call PushingNext1: isInt(x) && isInt(y) ==> isInt($val) && $val.AsInt() == int64(spec.truncRem(x.AsInt(), y.AsInt()))
